@@ -263,6 +263,34 @@ def eval_time_expr(ix: Index, f: FuncInfo, expr, groups: typing.Dict[str, str], 
 # ORD-br / PAIR-span for the cue text parsers
 # ---------------------------------------------------------------------------------------
 
+def push_wrappers(ix: Index, cls) -> typing.Set[str]:
+  """Names of the methods of `cls` that take one element and push it under some container on
+  every path (wrappers of push_child: they count as a push at their call sites)."""
+  out = set()
+  if cls is None:
+    return out
+  for m in cls.methods.values():
+    ps = [p_ for p_ in m.params if p_ not in ("self", "cls")]
+    if len(ps) != 1:
+      continue
+
+    def pushes(stmts):
+      for st in stmts:
+        if isinstance(st, ast.If):
+          if st.orelse and pushes(st.body) and pushes(st.orelse):
+            return True
+        elif any(isinstance(c, ast.Call) and isinstance(c.func, ast.Attribute) and c.func.attr == "push_child" for c in ast.walk(st)):
+          return True
+      return False
+    if pushes(m.node.body):
+      out.add(m.name)
+  return out
+
+
+def _is_push(c, wrappers) -> bool:
+  return isinstance(c, ast.Call) and isinstance(c.func, ast.Attribute) and (c.func.attr == "push_child" or (c.func.attr in wrappers and isinstance(c.func.value, ast.Name) and c.func.value.id == "self"))
+
+
 def check_line_breaks(ctx, f: FuncInfo, rule="ORD-br"):
   """In the per-line loop of a text handler, a Br is pushed for every line but the first, and
   nothing can skip it: the only test on the path from the loop header to the Br push is
@@ -275,7 +303,7 @@ def check_line_breaks(ctx, f: FuncInfo, rule="ORD-br"):
   idx = lp.target.elts[0].id if isinstance(lp.target, ast.Tuple) else None
   first = lp.body[0]
   ok = isinstance(first, ast.If) and unparse(first.test).replace(" ", "") in (f"{idx}>0", f"0<{idx}", f"{idx}!=0", f"{idx}>=1") and \
-    any(isinstance(c, ast.Call) and "Br(" in unparse(c) and isinstance(c.func, ast.Attribute) and c.func.attr == "push_child" for c in own_nodes(first)) and not first.orelse
+    any(_is_push(c, push_wrappers(ctx.ix, f.cls)) and "Br(" in unparse(c) for c in own_nodes(first)) and not first.orelse
   ctx.check(ok, rule, f"{f.qualname}|a line break precedes every line but the first", ctx.where(f.module, lp),
             f"loop body starts with `if {idx} > 0: push Br`", "the per-line loop no longer starts by pushing a Br for every line after the first: a line break can be skipped (e.g. before an empty fragment or a tag)")
   # the split is on the newline character
@@ -298,7 +326,7 @@ def check_span_pairing(ctx, start: FuncInfo, end: FuncInfo, attr="parent", rule=
     t = unparse(st)
     if isinstance(st, ast.Assign) and unparse(st.targets[0]) == "span" and ("model.Span(" in t or "_make_span(" in t):
       seq.append(("new", i))
-    elif isinstance(st, ast.Expr) and t == f"{selfattr}.push_child(span)":
+    elif isinstance(st, ast.Expr) and (t == f"{selfattr}.push_child(span)" or (_is_push(st.value, push_wrappers(ctx.ix, start.cls)) and len(st.value.args) == 1 and unparse(st.value.args[0]) == "span")):
       seq.append(("push", i))
     elif isinstance(st, ast.Assign) and unparse(st.targets[0]) == selfattr and unparse(st.value) == "span":
       seq.append(("enter", i))
